@@ -107,6 +107,8 @@ int main(int argc, char** argv) {
           DynamicRFKickMap* d = w.drflin;
           snap_val("off_phasenoise", std::to_string((char*)&d->_phasenoise - (char*)d)); snap_val("off_amplnoise", std::to_string((char*)&d->_amplnoise - (char*)d)); snap_val("off_modampl", std::to_string((char*)&d->_modampl - (char*)d));
           snap_val("off_modtimedelta", std::to_string((char*)&d->_modtimedelta - (char*)d)); snap_val("sizeof_rf", std::to_string(sizeof(RFKickMap))); snap_val("sizeof_drf", std::to_string(sizeof(DynamicRFKickMap))); }
+        { PhaseSpace* pi = w.in->get(); snap_root("proj_in", pi->_projection.data()); snap_root("filling_in", pi->_filling.data()); snap_root("integral_in", &pi->_integral); snap_root("moment_in", pi->_moment.data()); snap_root("rms_in", pi->_rms.data());
+          snap_val("sz_moment_in", std::to_string(pi->_moment.num_elements())); snap_val("sz_rms_in", std::to_string(pi->_rms.num_elements())); }
         snap_root("data_in", (*w.in)->getData()); snap_root("data_out", (*w.out)->getData()); snap_root("pos", w.pos); snap_root("ic", w.ic); snap_root("slip", w.slip);
         snap_root("slip_data", w.slip->data());
         snap_root("axis0", (*w.in)->getAxis(0).get()); snap_root("axis1", (*w.in)->getAxis(1).get());
